@@ -272,7 +272,8 @@ def gen_cases(rng, text, kw, exhaustive, n_sample):
         for what in ("delete", "skip", "replace", "replace-other", "mutate"):
             a = action(i, what)
             if a is not None:
-                cases.append({"chain": False, "visitors": [plain({i: a}, disp=rng.random() < 0.3)], "what": what, "at": i})
+                cases.append({"chain": False, "visitors": [plain({i: a}, disp=rng.random() < 0.3)], "what": what, "at": i,
+                              "path": paths.get(i)})
     # wrong-kind replacements, multi-edit scripts, chains with editing members, sub-tree roots
     for _ in range(2 if not exhaustive else 4):
         i = rng.choice(ent)
@@ -443,6 +444,12 @@ def run(ctx):
                 req, out = run_real(text, kw, c)
                 reqs.append(req)
                 meta.append((text, kw, c, out))
+                # the SPECIFICATION `Spec.editAt` against the real result (delete / replace at one position)
+                if (c.get("what") in ("delete", "replace", "replace-other") and c.get("path") and "err" not in out
+                        and (exhaustive or ctx.rng.random() < 0.35)):
+                    act = c["visitors"][0]["script"][0][1]
+                    reqs.append({"op": "edit", "tree": req["tree"], "path": c["path"], "node": act.get("node")})
+                    meta.append((text, kw, dict(c, what="spec-edit:" + c["what"]), {"ret": out["ret"], "orig": out["ret"]}))
             for which in ("RemoveFieldAliasesVisitor", "CamelCaseToSnakeCaseVisitor", "SnakeCaseToCamelCaseVisitor"):
                 if "allow_type_system" in kw:
                     break
@@ -520,6 +527,8 @@ def compare(ctx, text, kw, case, out, ans):
             diff = "outcome"
         ctx.stat("outcome:" + str(out.get("err")))
     else:
+        if what.startswith("spec-edit:"):
+            ans = dict(ans, orig=ans.get("ret"))
         if ans.get("orig") is None and "same" in ans:   # compact answer: orig omitted when equal to ret
             ans = dict(ans, orig=ans["ret"])
         if out["ret"] != ans["ret"]:
